@@ -18,7 +18,8 @@ use vh::{exec, resp, world::Req};
 
 #[derive(Clone)]
 struct Ev { f: String, id: i32, kind: String }
-fn is_bad(k: &str) -> bool { k == "bad" || k == "badslow" }
+fn is_bad(k: &str) -> bool { k == "bad" || k == "badslow" || k == "badfatal" }
+fn is_fatal(k: &str) -> bool { k == "fatal" || k == "badfatal" }
 fn is_slow(k: &str) -> bool { k == "slow" || k == "badslow" }
 fn gate_of(f: &str, id: i32) -> u64 { (if f == "s1" { 100 } else { 200 }) + id as u64 }
 
@@ -32,6 +33,7 @@ impl Ev {
         if is_slow(&self.kind) { let req = ctx.data_unchecked::<Arc<Req>>().clone(); let _ = req.gate(gate_of(&self.f, self.id)).await; }
         7
     }
+    async fn boom(&self) -> Result<i32> { if is_fatal(&self.kind) { Err("boom".into()) } else { Ok(9) } }
 }
 struct Query;
 #[Object]
@@ -60,6 +62,10 @@ fn dynamic_schema() -> dy::Schema {
             let e = ctx.parent_value.try_downcast_ref::<Ev>()?.clone();
             if is_slow(&e.kind) { let req = ctx.data_unchecked::<Arc<Req>>().clone(); let _ = req.gate(gate_of(&e.f, e.id)).await; }
             Ok(Some(Value::from(7)))
+        })))
+        .field(dy::Field::new("boom", dy::TypeRef::named_nn(dy::TypeRef::INT), |ctx| dy::FieldFuture::new(async move {
+            let e = ctx.parent_value.try_downcast_ref::<Ev>()?;
+            if is_fatal(&e.kind) { Err(Error::new("boom")) } else { Ok(Some(Value::from(9))) }
         })));
     let query = dy::Object::new("Query").field(dy::Field::new("n", dy::TypeRef::named_nn(dy::TypeRef::INT), |_| dy::FieldFuture::new(async { Ok(Some(Value::from(1))) })));
     let mut sub = dy::Subscription::new("Subscription");
